@@ -26,7 +26,7 @@ pub struct C03;
 const SPELLINGS: &[&str] = &[
     "a", "b", "x", "_", "__", "_a", "a_", "item", "item0x", "item1x", "item12x", "Item1", "itemized", "items", "item_1", "iff", "if_", "fnx", "letx", "let_", "forwardx", "structure",
     "unionize", "truex", "falsey", "none_", "somex", "x1", "x_1", "X", "aB", "Ab", "a1b2", "longer_identifier_with_many_parts", "aaaaaaaaaaaaaaaaaaaaaaaaaaaaaaaaaaaaaaaa", "i", "l", "O0", "q_q",
-    "selfx", "intx", "str_", "boolx", "Tt", "errorx", "displayx", "ge", "lt_", "add_", "neg_", "item00", "item01", "item_", "itemitem1", "xitem1", "zz9",
+    "selfx", "intx", "str_", "boolx", "Tt", "errorx", "displayx", "ge_", "lt_", "add_", "neg_", "item00", "item01", "item_", "itemitem1", "xitem1", "zz9",
 ];
 
 struct G<'a, 'b> {
@@ -541,6 +541,53 @@ impl Property for C03 {
     }
     fn enumerate(&self, ctx: &mut Ctx, _tier: Tier) -> Result<Vec<CaseOutcome>, HarnessError> {
         let mut outs = vec![];
+        // identifier injectivity: distinct spellings (unprefixed, next to tuple item names) never alias
+        let extra = ["item0", "item1", "item2", "item3x", "item10", "item1_", "item2a", "item9999999999", "item1item2", "Item0", "ITEM1", "item", "itemx1"];
+        for k in 0..48u64 {
+            let mut names: Vec<String> = vec![];
+            let mut x = k.wrapping_mul(0x9E3779B97F4A7C15) | 1;
+            while names.len() < 12 {
+                x = x.wrapping_mul(6364136223846793005).wrapping_add(1442695040888963407);
+                let pool_len = SPELLINGS.len() + extra.len();
+                let i = (x >> 33) as usize % pool_len;
+                let n = if i < SPELLINGS.len() { SPELLINGS[i] } else { extra[i - SPELLINGS.len()] }.to_string();
+                if !names.contains(&n) {
+                    names.push(n);
+                }
+            }
+            let mut src = String::new();
+            let mut want = vec![];
+            for (i, n) in names.iter().enumerate() {
+                if i % 3 == 2 {
+                    src.push_str(&format!("fn {n}(q: int) -> int {{ q + {} }}\n", 500 + i));
+                    want.push(crate::dump::d_i64(500 + i as i64 + 1));
+                } else {
+                    src.push_str(&format!("let {n} = {};\n", 100 + i));
+                    want.push(crate::dump::d_i64(100 + i as i64));
+                }
+            }
+            src.push_str("let tp = (1000, 2000, 3000);\n");
+            let reads: Vec<String> = names.iter().enumerate().map(|(i, n)| if i % 3 == 2 { format!("{n}(1)") } else { n.clone() }).collect();
+            src.push_str(&format!("let r = [{}, tp::item0, tp::item1, tp::item2];\n", reads.join(", ")));
+            want.extend([crate::dump::d_i64(1000), crate::dump::d_i64(2000), crate::dump::d_i64(3000)]);
+            let mut job = Job::new(src.clone());
+            job.steps.push(Step::Get { name: "r".into() });
+            let r = ctx.exec(&job)?;
+            let mut o = CaseOutcome { key: fnv(src.as_bytes()), nontrivial: true, evals: 1, classes: vec!["identifier_injectivity".into()], ..Default::default() };
+            let expect = crate::expect::Expect::Dump { dump: crate::dump::d_seq(want) };
+            if let Some(f) = end_failure(&r) {
+                o.failures.push(f.direct(crate::direct::make_direct(&job, &[(2, expect)])));
+            } else if !crate::expect::satisfied(&expect, r.step(2)) {
+                o.failures.push(
+                    Failure::new("identifiers_alias", format!("distinct identifiers must denote distinct bindings; got {} / {}\n  {}", crate::expect::brief(r.step(0)), crate::expect::brief(r.step(2)), src.replace('\n', "\n  ")))
+                        .direct(crate::direct::make_direct(&job, &[(2, expect)])),
+                );
+            }
+            if k % 16 == 0 {
+                o.sample = Some(json!({"program": src}));
+            }
+            outs.push(o);
+        }
         for dep in DEPENDANTS {
             for route in ROUTES {
                 for nested in [false, true] {
